@@ -150,7 +150,11 @@ def check(cx):
         r3.violation('authenticate|verify-entered', 'the verified password is not the one supplied with PASS', loc=af)
     # which stored hash is checked under which condition
     r3.instance('required hash = configured user password, else server password')
+    # the conditions inside the argument term are relative to the place of the verification call
+    vev = [e for e in wa.events if e.kind in ('call', 'await') and 'argon2_verify_password_async' in str(e.data.get('callee') or e.data.get('name') or '')]
+    vctx = vev[0].pc if vev else T
     for c, leaf in cases(req):
+        c = And(c, vctx)
         if sat(And(c, Or(cfgpw, Atom(spw_some)))) is None:
             continue
         want_user = leaf == ('some_of', ('field', ucfg_entry, 'password'))
